@@ -802,22 +802,37 @@ def fails_like(spec, ops, kind, world=None):
     except Exception:  # noqa
         return None
     for f in findings:
-        if f[1] == kind:
+        if f[1] == kind or (kind is None and f[1] not in [k['signature'].get('kind') for k in KNOWN_LOCAL]):
             return f
     return None
 
 
-def shrink(spec, ops, finding, world=None):
+def fails_like_fresh(spec, ops, kind, world=None):
+    """the same question asked in a fresh interpreter: class-level state left behind by earlier histories of this
+    process (which is exactly what a sharing defect produces) cannot make a history look guilty"""
+    import subprocess
+    import sys
+    try:
+        p = subprocess.run([sys.executable, '-W', 'ignore', os.path.abspath(__file__), 'probe'],
+                           input=json.dumps({'spec': spec, 'ops': ops, 'kind': kind}), capture_output=True, text=True, timeout=120)
+        out = json.loads(p.stdout.strip().split('\n')[-1])
+        return tuple(out) if out else None
+    except Exception:  # noqa
+        return None
+
+
+def shrink(spec, ops, finding, world=None, test=fails_like):
     idx, kind, _ = finding
     ops = ops[:idx + 1]
-    f = fails_like(spec, ops, kind, world)
+    f = test(spec, ops, kind, world)
     if f is None:
-        return ops, finding
+        return ops, None
     best = f
+    ops = ops[:f[0] + 1]
     i = len(ops) - 2
     while i >= 0:
         cand = ops[:i] + ops[i + 1:]
-        g = fails_like(spec, cand, kind, world)
+        g = test(spec, cand, kind, world)
         if g is not None:
             ops, best = cand[:g[0] + 1], g
             i = min(i, len(ops) - 1)
@@ -842,7 +857,24 @@ def report(ctx, spec, ops, finding, proto, world=None):
     if len(ctx.violations) >= 3:
         return
     ops2, f2 = shrink(spec, ops, finding, world)
-    replay = {'kind': f2[1], 'proto': proto, 'spec': spec_sx(spec), 'ops': ops_sx(ops2), 'op_index': f2[0]}
+    fresh = None
+    if f2 is not None:
+        fresh = fails_like_fresh(spec, ops2, f2[1])
+    if fresh is None:
+        # the minimised history does not fail on its own in a fresh interpreter (state leaked between histories):
+        # minimise again, asking a fresh interpreter each time
+        ops3, f3 = shrink(spec, ops, finding, None, fails_like_fresh)
+        if f3 is None:
+            # not even its own prefix fails alone: look for any failure of the whole history in a fresh interpreter
+            g = fails_like_fresh(spec, ops, finding[1]) or fails_like_fresh(spec, ops, None)
+            if g is not None:
+                ops3, f3 = shrink(spec, ops, g, None, fails_like_fresh)
+        if f3 is not None:
+            ops2, f2, fresh = ops3, f3, f3
+    if f2 is None:
+        ops2, f2 = ops[:finding[0] + 1], finding
+    replay = {'kind': f2[1], 'proto': proto, 'spec': spec_sx(spec), 'ops': ops_sx(ops2), 'op_index': f2[0],
+              'reproduces_in_fresh_interpreter': fresh is not None}
     ctx.violation(f2[2], replay)
 
 
@@ -969,3 +1001,20 @@ def replay(ctx, path):
     for f in findings:
         print('oracle:', f)
     check_history(ctx, spec, ops, rep.get('proto', 'bin'))
+
+
+def probe_main():
+    """`python c18.py probe` (stdin: {"spec", "ops", "kind"}) -> the first oracle finding of that kind, as JSON"""
+    import sys
+    sys.path.insert(0, os.path.dirname(os.path.abspath(__file__)))
+    import common
+    common.use_repo()
+    q = json.load(sys.stdin)
+    f = fails_like(q['spec'], q['ops'], q['kind'])
+    print(json.dumps(list(f) if f else None))
+
+
+if __name__ == '__main__':
+    import sys
+    if len(sys.argv) > 1 and sys.argv[1] == 'probe':
+        probe_main()
